@@ -459,6 +459,7 @@ struct ProgRun {
     uint64_t boundaries = 0;
     uint64_t reuseBefore = 0;  // model reuse events before the op that has just been applied
     int deferredAtOp = -1;     // a destructor error is due at the start of this op
+    bool degraded = false;     // C06 only: boundary checks switched off after a foreign finding
     uint64_t resyncs = 0;      // lockstep mismatches owned by another property after which the model adopted the observed state
     bool echoOff = false;
     sim::Hash evlog;
@@ -506,20 +507,26 @@ std::string declName(const qh::DeclInfo& d, size_t id) {
 // boundary checks after op `done` (the model has just applied it)
 void boundaryChecks(ProgRun& pr, const qh::Observation& ob, int done) {
     auto& I = pr.interp;
-    auto push = [&](const std::string& cls, const std::string& owner, const std::string& d) { pr.findings.push_back({cls, owner, d}); };
+    if (pr.degraded) return;
+    auto push = [&](const std::string& cls, const std::string& owner, const std::string& d) {
+        pr.findings.push_back({cls, owner, d});
+        // C06 is judged per declaration (which operation is refused, where the run stops), not per simulator index:
+        // after a state- or handle-level finding owned by another property the run goes on without these checks.
+        if (pr.property == "C06" && !ownsFwd("C06", owner, cls)) pr.degraded = true;
+    };
     const qh::Op* last = done >= 0 && done < (int)pr.plan->ops.size() ? &pr.plan->ops[(size_t)done] : nullptr;
     std::string after = last ? qh::kindName(last->kind) : "start";
     // C03: shape, finiteness, norm
     if (ob.state.size() != (size_t{1} << ob.simQubits) || ob.simQubits != I.sv.n) {
         push("state_size_wrong", "C03", "after " + after + " (op " + std::to_string(done) + "): " + std::to_string(ob.state.size()) + " amplitudes, simulator reports " + std::to_string(ob.simQubits) + " qubits, model has " + std::to_string(I.sv.n));
-        pr.desync = true;
+        if (!pr.degraded) pr.desync = true;
         return;
     }
     double nrm = 0;
     bool fin = true;
     for (auto& v : ob.state) { if (!std::isfinite(v.real()) || !std::isfinite(v.imag())) fin = false; nrm += std::norm(v); }
-    if (!fin) { push("non_finite_amplitude", "C03", "after " + after + " (op " + std::to_string(done) + ")"); pr.desync = true; return; }
-    if (std::fabs(nrm - 1) > 1e-9) { push("norm_not_one", "C03", "after " + after + " (op " + std::to_string(done) + "): |psi|^2=" + refq::fd(nrm)); pr.desync = true; return; }
+    if (!fin) { push("non_finite_amplitude", "C03", "after " + after + " (op " + std::to_string(done) + ")"); if (!pr.degraded) pr.desync = true; return; }
+    if (std::fabs(nrm - 1) > 1e-9) { push("norm_not_one", "C03", "after " + after + " (op " + std::to_string(done) + "): |psi|^2=" + refq::fd(nrm)); if (!pr.degraded) pr.desync = true; return; }
     // lockstep state
     double d = refq::maxDiffUpToPhase(I.sv.a, ob.state);
     if (d > 1e-9) {
@@ -531,7 +538,7 @@ void boundaryChecks(ProgRun& pr, const qh::Observation& ob, int done) {
         }
         std::string cls = "state_mismatch_after_" + after;
         push(cls, owner, "op " + std::to_string(done) + ": distance " + refq::fd(d) + " between evaluator state and reference model");
-        if (ownsFwd(pr.property, owner, cls)) { pr.desync = true; return; }
+        if (ownsFwd(pr.property, owner, cls)) { if (!pr.degraded) pr.desync = true; return; }
         // another property's oracle fired (that property's check reports it). The observed state is a valid unit
         // vector of the right size, so the model adopts it and the run goes on: later operations can still be judged.
         I.sv.a = ob.state;
@@ -543,27 +550,27 @@ void boundaryChecks(ProgRun& pr, const qh::Observation& ob, int done) {
         if (!I.decls[id].alive) continue;
         std::string name = declName(I.decls[id], id);
         auto it = ob.declIndices.find(name);
-        if (it == ob.declIndices.end()) { push("declaration_lost", "C03", name + " not found in scope after op " + std::to_string(done)); pr.desync = true; return; }
+        if (it == ob.declIndices.end()) { push("declaration_lost", "C03", name + " not found in scope after op " + std::to_string(done)); if (!pr.degraded) pr.desync = true; return; }
         if (it->second != I.declIdx[id]) {
             std::string a, b;
             for (int x : it->second) a += std::to_string(x) + " ";
             for (int x : I.declIdx[id]) b += std::to_string(x) + " ";
             push("handle_denotes_other_qubit", "C03", name + " holds simulator index [" + a + "] but was created for [" + b + "] (after op " + std::to_string(done) + ")");
-            pr.desync = true;
+            if (!pr.degraded) pr.desync = true;
             return;
         }
         if (I.decls[id].kind == 4) continue;  // aliases are judged below
         for (int x : it->second) {
-            if (owner.count(x)) { push("two_declarations_share_qubit", "C03", name + " and " + owner[x] + " both hold q[" + std::to_string(x) + "]"); pr.desync = true; return; }
+            if (owner.count(x)) { push("two_declarations_share_qubit", "C03", name + " and " + owner[x] + " both hold q[" + std::to_string(x) + "]"); if (!pr.degraded) pr.desync = true; return; }
             owner[x] = name;
             for (int f : ob.freeList)
-                if (f == x) { push("live_qubit_on_free_list", "C03", name + " holds q[" + std::to_string(x) + "] which is on the free list"); pr.desync = true; return; }
+                if (f == x) { push("live_qubit_on_free_list", "C03", name + " holds q[" + std::to_string(x) + "] which is on the free list"); if (!pr.degraded) pr.desync = true; return; }
         }
     }
     if (I.staticIdx >= 0) {
         auto it = ob.declIndices.find("SQ.s");
-        if (it == ob.declIndices.end() || it->second.size() != 1 || it->second[0] != I.staticIdx) { push("handle_denotes_other_qubit", "C03", "static field SQ.s holds " + (it == ob.declIndices.end() ? std::string("nothing") : std::to_string(it->second[0])) + ", created for q[" + std::to_string(I.staticIdx) + "]"); pr.desync = true; return; }
-        if (owner.count(I.staticIdx)) { push("two_declarations_share_qubit", "C03", "SQ.s and " + owner[I.staticIdx] + " both hold q[" + std::to_string(I.staticIdx) + "]"); pr.desync = true; return; }
+        if (it == ob.declIndices.end() || it->second.size() != 1 || it->second[0] != I.staticIdx) { push("handle_denotes_other_qubit", "C03", "static field SQ.s holds " + (it == ob.declIndices.end() ? std::string("nothing") : std::to_string(it->second[0])) + ", created for q[" + std::to_string(I.staticIdx) + "]"); if (!pr.degraded) pr.desync = true; return; }
+        if (owner.count(I.staticIdx)) { push("two_declarations_share_qubit", "C03", "SQ.s and " + owner[I.staticIdx] + " both hold q[" + std::to_string(I.staticIdx) + "]"); if (!pr.degraded) pr.desync = true; return; }
         owner[I.staticIdx] = "SQ.s";
     }
     // an alias copied from an object's field must not come to share a qubit with another declaration
@@ -580,7 +587,7 @@ void boundaryChecks(ProgRun& pr, const qh::Observation& ob, int done) {
     {
         std::set<int> fl;
         for (int f : ob.freeList)
-            if (!fl.insert(f).second) { push("free_list_duplicate", "C03", "q[" + std::to_string(f) + "] is on the free list twice (after op " + std::to_string(done) + ")"); pr.desync = true; return; }
+            if (!fl.insert(f).second) { push("free_list_duplicate", "C03", "q[" + std::to_string(f) + "] is on the free list twice (after op " + std::to_string(done) + ")"); if (!pr.degraded) pr.desync = true; return; }
     }
     // C06: the two replicas of the measured flag agree with each other and with the model
     for (auto& kv : owner) {
